@@ -132,6 +132,18 @@ CHECKS = {
   note='Trusted: specs/filter_ops.json (NM-TRAN operator table); pandas query semantics; the comment-line regexes are '
        'deliberately not checked (docs/NONMEM.rst and NM-TRAN disagree about @).',
   ref='DESIGN.md §2 C13'),
+ 'C01': dict(
+  technique='table extraction from the reader (if/elif chains, returned tuples, unpacking order, add_flow calls) with '
+            'algebraic normalisation (sympy on the extracted constant expressions) against an independent PREDPP '
+            'reference table; branch-internal index consistency; grammar-rule / interpreter-handler / NM-TRAN token '
+            'table agreement; precedence and associativity derived from the LALR grammar',
+  text='A1-A4 compare whole tables: all (ADVAN, TRANS) cells, all expression rules and tokens, all precedence levels. '
+       'A swapped micro-constant, a wrong compartment number, a mis-mapped intrinsic or a changed associativity is '
+       'found for every cell, not only those a test model happens to use. Numeric equality of eval(read(C)) with '
+       'NM-TRAN for arbitrary programs, $DES recovery and OMEGA scale arithmetic are not decided.',
+  note='Trusted: specs/predpp.json and specs/nmtran_ops.json (independent transcriptions of the NONMEM guides); sympy '
+       'for rational-function equality of extracted expressions.',
+  ref='DESIGN.md §2 C01'),
 }
 NA = {}
 
